@@ -12,6 +12,7 @@ import PrioModel.Prio3
 import PrioModel.Ctor
 import PrioModel.Par
 import PrioModel.Prio2
+import PrioModel.Poplar1
 
 /-! Line-protocol driver: one request per line on stdin, one answer per line on stdout. -/
 open Prio
@@ -793,6 +794,167 @@ def handleC19 (args : List String) : String :=
       | _, _ => "bad-op"
     | _ => "bad-op"
 
+/-! ### Poplar1 -/
+
+section pop
+variable {qi ql : Nat}
+abbrev FIq (qi : Nat) := Fin (qi + 1)
+
+def decPairs (q sz : Nat) (bs : List Nat) : Option (List (Fin (q + 1) × Fin (q + 1))) := do
+  let v ← decodeFieldVec q sz bs
+  if v.length % 2 ≠ 0 then none
+  else pure ((List.range (v.length / 2)).map fun i => (v.getD (2 * i) 0, v.getD (2 * i + 1) 0))
+
+/-- `Poplar1InputShare::decode_with_param(bits)` -/
+def decPopInput (qi ql bits : Nat) (bs : List Nat) : Option (Poplar1.InputShare (Fin (qi + 1)) (Fin (ql + 1))) :=
+  let il := (bits - 1) * 16
+  if bits = 0 ∨ bs.length ≠ 16 + 32 + il + 64 then none
+  else do
+    let ci ← decPairs qi 8 ((bs.drop 48).take il)
+    let cl ← decPairs ql 32 (bs.drop (48 + il))
+    match cl with
+    | [l] => pure ⟨bs.take 16, (bs.drop 16).take 32, ci, l⟩
+    | _ => none
+
+def encPopInput (sh : Poplar1.InputShare (Fin (qi + 1)) (Fin (ql + 1))) : List Nat :=
+  sh.idpfKey ++ sh.corrSeed ++ (sh.corrInner.flatMap fun p => leBytesC p.1.val 8 ++ leBytesC p.2.val 8)
+    ++ leBytesC sh.corrLeaf.1.val 32 ++ leBytesC sh.corrLeaf.2.val 32
+
+/-- `IdpfPublicShare::decode_with_param(bits)` (canonical encodings only) -/
+def decPopPublic (qi ql bits : Nat) (bs : List Nat) :
+    Option (Idpf.PublicShare (List Nat) (Idpf.Pair (Fin (qi + 1))) (Idpf.Pair (Fin (ql + 1)))) :=
+  let cbLen := (2 * bits + 7) / 8
+  if bits = 0 ∨ bs.length ≠ cbLen + 16 * bits + 16 * (bits - 1) + 64 then none
+  else do
+    let cbs := unpackBits false (bs.take cbLen)
+    let seeds := (bs.drop cbLen).take (16 * bits)
+    let iv ← decPairs qi 8 ((bs.drop (cbLen + 16 * bits)).take (16 * (bits - 1)))
+    let lv ← decPairs ql 32 (bs.drop (cbLen + 16 * bits + 16 * (bits - 1)))
+    match lv with
+    | [l] =>
+      let inner := (List.range (bits - 1)).map fun i =>
+        (⟨(seeds.drop (16 * i)).take 16, cbs.getD (2 * i) false, cbs.getD (2 * i + 1) false,
+          ⟨(iv.getD i (0, 0)).1, (iv.getD i (0, 0)).2⟩⟩ : Idpf.CW (List Nat) (Idpf.Pair (Fin (qi + 1))))
+      let b := bits - 1
+      pure ⟨inner, ⟨(seeds.drop (16 * b)).take 16, cbs.getD (2 * b) false, cbs.getD (2 * b + 1) false, ⟨l.1, l.2⟩⟩⟩
+    | _ => none
+
+def encPopVec (v : Poplar1.FieldVec (Fin (qi + 1)) (Fin (ql + 1))) : List Nat :=
+  match v with
+  | .inner l => l.flatMap fun x => leBytesC x.val 8
+  | .leaf l => l.flatMap fun x => leBytesC x.val 32
+
+def encSketch {q : Nat} (sz : Nat) (s : Poplar1.Sketch (Fin (q + 1))) : List Nat :=
+  match s with
+  | .roundOne a b _ => [0] ++ leBytesC a.val sz ++ leBytesC b.val sz
+  | .roundTwo => [1]
+
+def encPopState (st : Poplar1.State (Fin (qi + 1)) (Fin (ql + 1))) : List Nat :=
+  match st with
+  | .inner sk out => [0] ++ encSketch 8 sk ++ beBytes out.length 4 ++ out.flatMap fun x => leBytesC x.val 8
+  | .leaf sk out => [1] ++ encSketch 32 sk ++ beBytes out.length 4 ++ out.flatMap fun x => leBytesC x.val 32
+
+def decSketch (q sz : Nat) (isLeader : Bool) (bs : List Nat) : Option (Poplar1.Sketch (Fin (q + 1)) × List Nat) :=
+  match bs with
+  | 0 :: rest => do
+    let v ← decodeFieldVec q sz (rest.take (2 * sz))
+    match v with
+    | [a, b] => pure (.roundOne a b isLeader, rest.drop (2 * sz))
+    | _ => none
+  | 1 :: rest => some (.roundTwo, rest)
+  | _ => none
+
+def decPopState (qi ql : Nat) (aggId : Nat) (bs : List Nat) : Option (Poplar1.State (Fin (qi + 1)) (Fin (ql + 1))) :=
+  match bs with
+  | 0 :: rest => do
+    let (sk, r) ← decSketch qi 8 (aggId == 0) rest
+    let n := beNat (r.take 4)
+    let out ← decodeFieldVec qi 8 (r.drop 4)
+    if r.length < 4 ∨ out.length ≠ n then none else pure (.inner sk out)
+  | 1 :: rest => do
+    let (sk, r) ← decSketch ql 32 (aggId == 0) rest
+    let n := beNat (r.take 4)
+    let out ← decodeFieldVec ql 32 (r.drop 4)
+    if r.length < 4 ∨ out.length ≠ n then none else pure (.leaf sk out)
+  | _ => none
+
+end pop
+
+def handlePop (args : List String) : String :=
+  withField "FP64" fun qi szi => withField "F255" fun ql szl =>
+    let ofI : Nat → Fin (qi + 1) := Fin.ofNat (qi + 1)
+    let ofL : Nat → Fin (ql + 1) := Fin.ofNat (ql + 1)
+    let fpI : Poplar1.FieldP := ⟨qi + 1, fieldMask "FP64", szi⟩
+    let fpL : Poplar1.FieldP := ⟨ql + 1, fieldMask "F255", szl⟩
+    match args with
+    | ["shard", bits, ctx, input, nonce, k0, k1, pr0, pr1, pr2, xt, pt] =>
+      match bits.toNat?, parseHex ctx, parseBits input, parseHex nonce, parseHex k0, parseHex k1,
+            parseHex pr0, parseHex pr1, parseHex pr2, parseXofTable xt, parseTable pt with
+      | some bits, some ctx, some inp, some n, some k0, some k1, some p0, some p1, some p2, some xtb, some ptb =>
+        let cfg : Poplar1.Cfg := ⟨bits, fpI, fpL⟩
+        match Poplar1.shard cfg ofI ofL (tableXof xtb) (Idpf.tablePrg ptb false qi szi) (Idpf.tablePrg ptb true ql szl)
+            ctx inp n k0 k1 p0 p1 p2 with
+        | .ok (pub, s0, s1) =>
+          s!"ok {toHex (Idpf.encodePublicShare szi szl pub)} {toHex (encPopInput s0)} {toHex (encPopInput s1)}"
+        | .err => "err"
+        | .panic => "panic"
+      | _, _, _, _, _, _, _, _, _, _, _ => "bad-op"
+    | ["vinit", bits, ctx, key, id, prefixes, nonce, pub, share, xt, pt] =>
+      match bits.toNat?, parseHex ctx, parseHex key, id.toNat?, parsePrefixes prefixes, parseHex nonce,
+            parseHex pub, parseHex share, parseXofTable xt, parseTable pt with
+      | some bits, some ctx, some key, some id, some pfx, some n, some pb, some sb, some xtb, some ptb =>
+        let cfg : Poplar1.Cfg := ⟨bits, fpI, fpL⟩
+        -- the shares were produced for `shareBits`; the driver recovers that from their lengths
+        let shareBits := (sb.length - 112) / 16 + 1
+        match decPopPublic qi ql shareBits pb, decPopInput qi ql shareBits sb with
+        | some pub, some sh =>
+          let ap : Poplar1.AggParam := ⟨(pfx.headD []).length - 1, pfx⟩
+          match Poplar1.verifyInit cfg ofI ofL (tableXof xtb) (Idpf.tablePrg ptb false qi szi) (Idpf.tablePrg ptb true ql szl)
+              key ctx id ap n pub sh with
+          | .ok (st, v) => s!"ok {toHex (encPopState st)} {toHex (encPopVec v)}"
+          | .err => "err"
+          | .panic => "panic"
+        | _, _ => "undecodable"
+      | _, _, _, _, _, _, _, _, _, _ => "bad-op"
+    | "vmsg" :: shares =>
+      let dec (h : String) : Option (Poplar1.FieldVec (Fin (qi + 1)) (Fin (ql + 1))) :=
+        match h.splitOn ":" with
+        | ["I", x] => (hexVec qi szi x).map .inner
+        | ["L", x] => (hexVec ql szl x).map .leaf
+        | _ => none
+      match (if shares == ["-"] then some [] else shares.mapM dec) with
+      | some shs =>
+        match Poplar1.sharesToMessage shs with
+        | .ok .done => "ok -"
+        | .ok (.sketchInner s) => "ok " ++ toHex (encodeFieldVec szi [s.1, s.2.1, s.2.2])
+        | .ok (.sketchLeaf s) => "ok " ++ toHex (encodeFieldVec szl [s.1, s.2.1, s.2.2])
+        | .err => "err"
+        | .panic => "panic"
+      | none => "bad-op"
+    | ["vnext", id, state, msg] =>
+      match id.toNat?, parseHex state, msg.splitOn ":" with
+      | some id, some sb, [kind, mh] =>
+        let m : Option (Poplar1.Message (Fin (qi + 1)) (Fin (ql + 1))) :=
+          match kind with
+          | "D" => some .done
+          | "I" => match hexVec qi szi mh with
+            | some [a, b, c] => some (.sketchInner (a, b, c))
+            | _ => none
+          | "L" => match hexVec ql szl mh with
+            | some [a, b, c] => some (.sketchLeaf (a, b, c))
+            | _ => none
+          | _ => none
+        match decPopState qi ql id sb, m with
+        | some st, some m =>
+          match Poplar1.verifyNext st m with
+          | .ok (.continue st' v) => s!"continue {toHex (encPopState st')} {toHex (encPopVec v)}"
+          | .ok (.finish out) => s!"finish {toHex (encPopVec out)}"
+          | .err => "err"
+          | .panic => "panic"
+        | _, _ => "bad-op"
+      | _, _, _ => "bad-op"
+    | _ => "bad-op"
+
 def handle (line : String) : String :=
   match line.trimAscii.toString.splitOn " " with
   | "fp" :: rest => handleFp rest
@@ -801,6 +963,7 @@ def handle (line : String) : String :=
   | "c16" :: rest => handleC16 rest
   | "c14" :: rest => handleC14 rest
   | "c19" :: rest => handleC19 rest
+  | "pop" :: rest => handlePop rest
   | "flp" :: op :: rest => handleFlp op rest
   | "poly" :: op :: rest => handlePoly op rest
   | "idpf" :: rest => handleIdpf rest
